@@ -52,8 +52,17 @@ CombineSem(C, cr, A, ar, B, br, sb, W) ==
 \* permutation application (LAPACK swap form), C13
 ApplyPLeftSem(A, P) == ApplyPLeft(A, P)
 ApplyPLeftTransSem(A, P) == ApplyPLeftTrans(A, P)
-ApplyPRightSem(A, P) == ApplyPRight(A, P)
-ApplyPRightTransSem(A, P) == ApplyPRightTrans(A, P)
+\* for very wide matrices: the same column swaps applied one after the other, over the non-trivial entries only
+\* (MC_GF2 checks that this agrees with GF2!ApplyPRight / ApplyPRightTrans)
+RECURSIVE SwapColsSeq(_, _, _, _)
+SwapColsSeq(A, P, todo, desc) ==
+  IF todo = {} THEN A
+  ELSE LET i == IF desc THEN SetMax(todo) ELSE SetMin(todo) IN SwapColsSeq(ColSwap(A, i, P[i + 1]), P, todo \ {i}, desc)
+NonTrivial(A, P) == {i \in 0 .. Min({Len(P), A.n}) - 1 : P[i + 1] # i}
+ApplyPRightSeq(A, P) == SwapColsSeq(A, P, NonTrivial(A, P), TRUE)
+ApplyPRightTransSeq(A, P) == SwapColsSeq(A, P, NonTrivial(A, P), FALSE)
+ApplyPRightSem(A, P) == IF A.n > 2000 THEN ApplyPRightSeq(A, P) ELSE ApplyPRight(A, P)
+ApplyPRightTransSem(A, P) == IF A.n > 2000 THEN ApplyPRightTransSeq(A, P) ELSE ApplyPRightTrans(A, P)
 \* "triangular" transposed right application: swap i only on the rows above row i, ascending i
 \* (iterating over the non-trivial entries only: the recursion depth is their number, not the length of P)
 RECURSIVE TriSwaps(_, _, _)
